@@ -67,7 +67,7 @@ impl Prop for C17 {
         }
     }
     fn rule_text(&self) -> &'static str {
-        "seeded scenarios: a configuration (sample_count_total, interval_ms_total, sample_count, interval_ms) from a grid incl. zero, non-dividing and non-tiling values, given as entity (init_with_config) or as YAML text (init_with_config_file on a scratch file), background tasks disabled through the configuration itself; accept/reject compared with an independent predicate; for an accepted configuration one resource node is created on the initialising thread and one on a thread spawned and joined at once, and one on a worker thread that was started (and had read the default configuration) before initialisation; the threads are serialised through channels so that only one is ever runnable, and a 10-25 op write/advance/read history under the virtual clock is applied to both: every read must equal the reference computed with the configured geometry (so a node that silently got another geometry shows). Non-trivial = accepted configuration different from the default with >= 1 read that distinguishes it from the default geometry; distinct = distinct trace hash."
+        "seeded scenarios: a configuration (sample_count_total, interval_ms_total, sample_count, interval_ms) from a grid incl. zero, non-dividing and non-tiling values, given as entity (init_with_config) or as YAML text (init_with_config_file on a scratch file), background tasks disabled through the configuration itself; accept/reject compared with an independent predicate; a refused configuration must not be in effect (the run continues against the default geometry that was in effect before); one resource node is created on the initialising thread and one on a thread spawned and joined at once, and one on a worker thread that was started (and had read the default configuration) before initialisation; the threads are serialised through channels so that only one is ever runnable, and a 10-25 op write/advance/read history under the virtual clock is applied to both: every read must equal the reference computed with the configured geometry (so a node that silently got another geometry shows). Non-trivial = accepted configuration different from the default with >= 1 read that distinguishes it from the default geometry; distinct = distinct trace hash."
     }
     fn components(&self) -> Value {
         json!({"real": ["sentinel-core: init_with_config / init_with_config_file, ConfigEntity::check, serde_yaml parsing, config accessors, ResourceNode creation on two threads, sliding windows"],
@@ -207,12 +207,16 @@ fn run(sc: &Scn, w: &mut World, tr: &mut Trace, cov: &mut Cov) -> Option<Violati
             format!("configuration {:?}: init result {:?}", sc.cfg, got.err().map(|e| e.to_string())),
         ));
     }
+    // a refused configuration must not be in effect: everything below is then checked against the
+    // configuration that was in effect before (the default)
+    let eff: (u32, u32, u32, u32) = if want_ok { sc.cfg } else { (20, 10_000, 2, 1000) };
     if !want_ok {
         cov.hit("configuration_refused");
-        finish_worker(None);
-        return None;
+        cov.hit(if sc.yaml { "refused_via_yaml_then_used" } else { "refused_via_entity_then_used" });
+    } else {
+        cov.hit(if sc.yaml { "accepted_via_yaml" } else { "accepted_via_entity" });
     }
-    cov.hit(if sc.yaml { "accepted_via_yaml" } else { "accepted_via_entity" });
+    let phase = if want_ok { "" } else { "after-refused-init/" };
     // node on the initialising thread, node on another thread (spawned and joined: never concurrent)
     let name_a = format!("{}_a", sc.res);
     let name_b = format!("{}_b", sc.res);
@@ -225,12 +229,12 @@ fn run(sc: &Scn, w: &mut World, tr: &mut Trace, cov: &mut Cov) -> Option<Violati
         (Ok(a), Ok(b), Some(c)) => (a, b, c),
         _ => {
             let (loc, msg) = crate::seams::take_last_panic().unwrap_or_default();
-            return Some(Violation::new("C17/node/creation-panics", 0, format!("accepted configuration {:?}: {} {}", sc.cfg, loc, msg)));
+            return Some(Violation::new(format!("C17/{}node/creation-panics", phase), 0, format!("{} configuration {:?}: {} {}", if want_ok { "accepted" } else { "refused" }, sc.cfg, loc, msg)));
         }
     };
-    let lt = (sc.cfg.1 / sc.cfg.0) as u64;
-    let iv = sc.cfg.3 as u64;
-    let is_default = sc.cfg == (20, 10_000, 2, 1000);
+    let lt = (eff.1 / eff.0) as u64;
+    let iv = eff.3 as u64;
+    let is_default = eff == (20, 10_000, 2, 1000);
     let mut log = RefWin::default();
     let mut distinguishing = false;
     for (i, op) in sc.ops.iter().enumerate() {
@@ -258,7 +262,7 @@ fn run(sc: &Scn, w: &mut World, tr: &mut Trace, cov: &mut Cov) -> Option<Violati
                         tr.word(got);
                         if got != want {
                             return Some(Violation::new(
-                                format!("C17/{}/window-not-as-configured", who),
+                                format!("C17/{}{}/window-not-as-configured", phase, who),
                                 i,
                                 format!(
                                     "configuration {:?} ({}): t={} sum({:?}) = {} but the configured geometry gives {} (the default geometry would give {})",
@@ -268,7 +272,7 @@ fn run(sc: &Scn, w: &mut World, tr: &mut Trace, cov: &mut Cov) -> Option<Violati
                         }
                         let wq = want as f64 / (iv as f64 / 1000.0);
                         if (node.qps(me) - wq).abs() > 1e-9 * wq.max(1.0) {
-                            return Some(Violation::new(format!("C17/{}/qps-not-as-configured", who), i, format!("configuration {:?}: qps {} expected {}", sc.cfg, node.qps(me), wq)));
+                            return Some(Violation::new(format!("C17/{}{}/qps-not-as-configured", phase, who), i, format!("configuration {:?}: qps {} expected {}", sc.cfg, node.qps(me), wq)));
                         }
                     }
                 }
